@@ -129,6 +129,19 @@ func JSONExpr(r *Rng, depth int, wellTyped bool) string {
 	case "LIKE":
 		right = Pick(r, []string{`"w*"`, `"/re/"`, `"*"`, `"a?"`, `"plain"`, `5`})
 	}
+	if r.Chance(1, 12) {
+		// an array operand whose elements are expression objects (well-formed or not), under any operator
+		n := 1 + r.Intn(3)
+		xs := make([]string, n)
+		for i := range xs {
+			xs[i] = Pick(r, []string{sub(), `{"left":"a","operator":"RANGE"}`, `{"left":"a","operator":"LIKE"}`, `{"left":"a","operator":"EQUALS","right":{"min":null,"max":1}}`, Pick(r, jsonScalars)})
+		}
+		left = "[" + strings.Join(xs, ",") + "]"
+	}
+	if r.Chance(1, 15) {
+		// a boundary-shaped right operand under a non-RANGE operator, possibly with null / empty ends
+		right = Pick(r, []string{`{"min":null,"max":1}`, `{"min":"","max":"m"}`, `{"min":1,"max":null,"inclusive":true}`, jsonBoundary(r)})
+	}
 	if !wellTyped {
 		switch r.Intn(12) {
 		case 0:
